@@ -35,9 +35,8 @@ def tables(pr):
     q = _fr.G + "__generate_account_balances"
     f, w = A.writer_for(pr.tree, q, "sorted(totals.items())")
     out += A.writer_vcs(q, _fr.REL, w, "sorted(totals.items())", {0: "_('Total')", 1: "ELT0", 6: "ELT1"}, tag="totals")
-    src = ast.unparse(f) if f else ""
     out.append(A.bvc(q, "writer", "holder_totals_accumulate_final_balances",
-                     "value = totals.setdefault(balance.holder, _ZERO)\n        value += balance.final_balance\n        totals[balance.holder] = value" in src, _fr.REL))
+                     A.Fn(pr.tree, q).has("value = totals.setdefault(balance.holder, _ZERO)\nvalue += balance.final_balance\ntotals[balance.holder] = value"), _fr.REL))
     return out
 
 
@@ -55,10 +54,11 @@ def detail(pr):
     want = {**{c: h for c, (_, h) in _fr.DETAIL_PLAIN.items()}, **{c: h for c, (_, _, h) in _fr.DETAIL_LINKED.items()}}
     out.append(A.bvc(q, "writer", "column_headers_name_what_the_columns_carry", hl is not None and all(c < len(hl) and hl[c] == h for c, h in want.items()), _fr.REL, str(hl), open_=hl is None))
     # the value displayed by a linked cell is the value passed: __get_hyperlinked_transaction_value returns value or a HYPERLINK formula around it
-    h = A.func_node(pr.tree, _fr.G + "__get_hyperlinked_transaction_value")
-    hs = ast.unparse(h) if h else ""
-    out.append(A.bvc(_fr.G + "__get_hyperlinked_transaction_value", "post", "shows_the_value_it_was_given",
-                     "if not row:\n        return value" in hs and hs.count("return") == 3 and '; {value})' in hs and '; "{value}")' in hs, _fr.REL))
+    Hf = A.Fn(pr.tree, _fr.G + "__get_hyperlinked_transaction_value")
+    rets = [n for n in ast.walk(Hf.node) if isinstance(n, ast.Return)] if Hf else []
+    out.append(A.bvc(Hf.qual, "post", "shows_the_value_it_was_given",
+                     Hf.has("if not row:\n    return value") and len(rets) == 3 and
+                     sum(1 for r in rets if isinstance(r.value, ast.JoinedStr) and any(isinstance(v, ast.FormattedValue) and A.expr_eq("value", ast.unparse(v.value), Hf.scope) for v in r.value.values)) == 2, _fr.REL))
     return out
 
 
@@ -67,49 +67,46 @@ def misc(pr):
     # _fill_cell: frame and double precision
     q = "rp2.plugin.report.abstract_ods_generator.AbstractODSGenerator."
     rel = "src/rp2/plugin/report/abstract_ods_generator.py"
-    f = A.func_node(pr.tree, q + "_fill_cell")
-    s = ast.unparse(f) if f else ""
-    subs = {ast.unparse(n) for n in ast.walk(f) if isinstance(n, ast.Subscript)} if f else set()
-    out.append(A.bvc(q + "_fill_cell", "frame", "writes_exactly_the_addressed_cell", subs == {"sheet[row_index, column_index]", "value[0]"}, rel, str(subs)))
-    out.append(A.bvc(q + "_fill_cell", "post", "decimal_goes_out_as_float_and_value_is_stored_as_given",
-                     "if isinstance(value, RP2Decimal):\n        value = float(value)" in s and "sheet[row_index, column_index].set_value(value)" in s and "sheet[row_index, column_index].formula = value" in s and
-                     "if isinstance(value, str) and value and (value[0] == '='):\n        is_formula = True" in s, rel))
-    # average price
-    f = A.func_node(pr.tree, _fr.G + "__generate_average_price_per_unit")
-    s = ast.unparse(f) if f else ""
-    out.append(A.bvc(_fr.G + "__generate_average_price_per_unit", "post", "average_price_cell_is_the_computed_price_per_unit",
-                     "self._fill_cell(sheet, row_index + 3, 0, price_per_unit, visual_style='transparent', data_style='fiat')" in s and "return row_index + 4" in s, _fr.REL))
+    FC = A.Fn(pr.tree, q + "_fill_cell")
+    f = FC.node
+    subs = [n for n in ast.walk(f) if isinstance(n, ast.Subscript)] if f else []
+    cell_ok = FC and all(A.expr_eq("sheet[row_index, column_index]", ast.unparse(n), FC.scope) or A.expr_eq("value[0]", ast.unparse(n), FC.scope) for n in subs) and len(subs) >= 2
+    out.append(A.bvc(FC.qual, "frame", "writes_exactly_the_addressed_cell", bool(cell_ok), rel, str({ast.unparse(n) for n in subs})))
+    out.append(A.bvc(FC.qual, "post", "decimal_goes_out_as_float_and_value_is_stored_as_given",
+                     FC.has("if isinstance(value, RP2Decimal):\n    value = float(value)") and
+                     FC.has("if is_formula:\n    sheet[row_index, column_index].formula = value\nelse:\n    sheet[row_index, column_index].set_value(value)") and
+                     FC.has("if isinstance(value, str) and value and (value[0] == '='):\n    is_formula = True"), rel))
+    AP = A.Fn(pr.tree, _fr.G + "__generate_average_price_per_unit")
+    out.append(A.bvc(AP.qual, "post", "average_price_cell_is_the_computed_price_per_unit",
+                     AP.has("self._fill_cell(sheet, row_index + 3, 0, price_per_unit, visual_style='transparent', data_style='fiat')") and AP.has("return row_index + 4"), _fr.REL))
     # generate(): every asset, summary sheet renamed, saved
-    g = A.func_node(pr.tree, _fr.G + "generate")
     _, wl = A.writer_for(pr.tree, _fr.G + "generate", "asset_to_computed_data.items()")
     out.append(A.bvc(_fr.G + "generate", "writer", "every_asset_is_generated", wl is not None and not [x for x in wl.skips if x[0] != "raise"] and
-                     "summary_row_index = self.__generate_asset(computed_data, output_file, summary_row_index)" in ast.unparse(wl.loop), _fr.REL))
-    ga = A.func_node(pr.tree, _fr.G + "__generate_asset")
-    s = ast.unparse(ga) if ga else ""
-    calls = ["self.__generate_in_table(transaction_sheet, computed_data, row_index)", "self.__generate_out_table(transaction_sheet, computed_data, row_index + 2)",
-             "self.__generate_intra_table(transaction_sheet, computed_data, row_index + 2)", "self.__generate_gain_loss_summary(output_sheet, computed_data.yearly_gain_loss_list, row_index)",
-             "self.__generate_account_balances(output_sheet, computed_data.balance_set, row_index + 2)",
-             "self.__generate_average_price_per_unit(output_sheet, asset, computed_data.price_per_unit, row_index + 2)", "self.__generate_gain_loss_detail(output_sheet, asset, computed_data, row_index + 2)",
+                     A.has(wl.loop, "summary_row_index = self.__generate_asset(computed_data, output_file, summary_row_index)", A._MOD_OF.get(id(wl.fnode)), scope=wl.scope), _fr.REL))
+    GA = A.Fn(pr.tree, _fr.G + "__generate_asset")
+    calls = ["row_index = self.__generate_in_table(transaction_sheet, computed_data, row_index)", "row_index = self.__generate_out_table(transaction_sheet, computed_data, row_index + 2)",
+             "row_index = self.__generate_intra_table(transaction_sheet, computed_data, row_index + 2)", "row_index = self.__generate_gain_loss_summary(output_sheet, computed_data.yearly_gain_loss_list, row_index)",
+             "row_index = self.__generate_account_balances(output_sheet, computed_data.balance_set, row_index + 2)",
+             "row_index = self.__generate_average_price_per_unit(output_sheet, asset, computed_data.price_per_unit, row_index + 2)",
+             "row_index = self.__generate_gain_loss_detail(output_sheet, asset, computed_data, row_index + 2)",
              "return self.__generate_yearly_gain_loss_summary(summary_sheet, asset, computed_data.yearly_gain_loss_list, summary_row_index)"]
-    pos = [s.find(c) for c in calls]
-    out.append(A.bvc(_fr.G + "__generate_asset", "writer", "all_eight_tables_are_written_from_the_assets_computed_data_in_order", all(p >= 0 for p in pos) and pos == sorted(pos), _fr.REL, str(pos)))
-    out.append(A.bvc(_fr.G + "__generate_asset", "writer", "summary_sheet_grows_by_the_number_of_yearly_lines",
-                     "new_lines: int = len(computed_data.yearly_gain_loss_list)\n    if new_lines:\n        summary_sheet.append_rows(new_lines)" in s, _fr.REL))
+    out.append(A.bvc(GA.qual, "writer", "all_eight_tables_are_written_from_the_assets_computed_data_in_order", GA.order(*calls), _fr.REL))
+    out.append(A.bvc(GA.qual, "writer", "summary_sheet_grows_by_the_number_of_yearly_lines",
+                     GA.has("new_lines = len(computed_data.yearly_gain_loss_list)\nif new_lines:\n    summary_sheet.append_rows(new_lines)"), _fr.REL))
     # legend
-    li = A.func_node(pr.tree, q + "_initialize_output_file")
-    s = ast.unparse(li) if li else ""
-    out.append(A.bvc(q + "_initialize_output_file", "post", "legend_states_the_method_of_a_single_method_run",
-                     "if len(years_2_accounting_method_names) == 1:\n                accounting_method_by_year.append(years_2_accounting_method_names[MIN_DATE.year].upper())" in s, rel))
-    out.append(A.bvc(q + "_initialize_output_file", "post", "legend_states_every_year_of_a_schedule",
-                     "for year, method in years_2_accounting_method_names.items():" in s and "accounting_method_by_year.append(f'{year}:{method.upper()}')" in s and
-                     "accounting_method_by_year.append(f'{old_year}->{year}:{method.upper()}')" in s and "cls._fill_cell(legend_sheet, index, 1, ', '.join(accounting_method_by_year), visual_style='transparent')" in s, rel))
-    out.append(A.bvc(q + "_initialize_output_file", "post", "legend_states_the_date_filters_used",
-                     "cls._fill_cell(legend_sheet, index + 1, 1, from_date if from_date != MIN_DATE else 'non-specified', visual_style='transparent')" in s and
-                     "cls._fill_cell(legend_sheet, index + 2, 1, to_date if to_date != MAX_DATE else 'non-specified', visual_style='transparent')" in s, rel))
-    mi = A.func_node(pr.tree, "rp2.rp2_main._find_and_run_report_generators")
-    s = ast.unparse(mi) if mi else ""
-    out.append(A.bvc("rp2.rp2_main._find_and_run_report_generators", "post", "generators_receive_the_schedule_and_filters_the_computation_used",
-                     all(x in s for x in ("years_2_accounting_method_names=years_2_accounting_method_names", "from_date=from_date", "to_date=to_date", "asset_to_computed_data=asset_to_computed_data")),
+    LI = A.Fn(pr.tree, q + "_initialize_output_file")
+    out.append(A.bvc(LI.qual, "post", "legend_states_the_method_of_a_single_method_run",
+                     LI.has("if len(years_2_accounting_method_names) == 1:\n    accounting_method_by_year.append(years_2_accounting_method_names[MIN_DATE.year].upper())\nelse:\n    ..."), rel))
+    out.append(A.bvc(LI.qual, "post", "legend_states_every_year_of_a_schedule",
+                     LI.has("for year, method in years_2_accounting_method_names.items():\n    if year - old_year > 1:\n        accounting_method_by_year.append(f'{old_year}->{year}:{method.upper()}')\n"
+                            "    else:\n        accounting_method_by_year.append(f'{year}:{method.upper()}')\n    old_year = year") and
+                     LI.has("cls._fill_cell(legend_sheet, index, 1, ', '.join(accounting_method_by_year), visual_style='transparent')"), rel))
+    out.append(A.bvc(LI.qual, "post", "legend_states_the_date_filters_used",
+                     LI.has("cls._fill_cell(legend_sheet, index + 1, 1, from_date if from_date != MIN_DATE else 'non-specified', visual_style='transparent')\n"
+                            "cls._fill_cell(legend_sheet, index + 2, 1, to_date if to_date != MAX_DATE else 'non-specified', visual_style='transparent')"), rel))
+    MI = A.Fn(pr.tree, "rp2.rp2_main._find_and_run_report_generators")
+    out.append(A.bvc(MI.qual, "post", "generators_receive_the_schedule_and_filters_the_computation_used",
+                     MI.expr("years_2_accounting_method_names=years_2_accounting_method_names", "from_date=from_date", "to_date=to_date", "asset_to_computed_data=asset_to_computed_data"),
                      "src/rp2/rp2_main.py"))
     from props import C16
     out += [vc for vc in C16.sizes(pr)]
